@@ -12,6 +12,8 @@ Import ListNotations.
 
 Section GravVar.
 Context {T : Type} (N : Num T).
+(* softening2 = r->softening*r->softening (since /repo 73bd0c3 the variational loops use the softened distance) *)
+Variable soft2 : T.
 Local Notation "a + b" := (nadd N a b).
 Local Notation "a - b" := (nsub N a b).
 Local Notation "a * b" := (nmul N a b).
@@ -43,7 +45,7 @@ Definition var1_terms (G : T) (pi pj vi vj : Part T) : T3 * T3 :=
   let dx := px pi - px pj in
   let dy := py pi - py pj in
   let dz := pz pi - pz pj in
-  let r2 := dx * dx + dy * dy + dz * dz in
+  let r2 := dx * dx + dy * dy + dz * dz + soft2 in
   let _r := nsqrt N r2 in
   let r3inv := 1 / (r2 * _r) in
   let r5inv := 3 * r3inv / r2 in
@@ -97,7 +99,7 @@ Definition var1_tp_step (G : T) (ps : list (Part T)) (dv : T3) (i j : nat) (a : 
   let dx := px pi - px pj in
   let dy := py pi - py pj in
   let dz := pz pi - pz pj in
-  let r2 := dx * dx + dy * dy + dz * dz in
+  let r2 := dx * dx + dy * dy + dz * dz + soft2 in
   let _r := nsqrt N r2 in
   let r3inv := 1 / (r2 * _r) in
   let r5inv := 3 * r3inv / r2 in
@@ -128,7 +130,7 @@ Definition acc_on_step (G : T) (ps : list (Part T)) (xi : T3) (j : nat) (a : T3)
   let dx := x - px pj in
   let dy := y - py pj in
   let dz := z - pz pj in
-  let _r := nsqrt N (dx * dx + dy * dy + dz * dz) in
+  let _r := nsqrt N (dx * dx + dy * dy + dz * dz + soft2) in
   let prefact := G / (_r * _r * _r) in
   let prefactj := (nneg N prefact) * pm pj in
   let '(ax, ay, az) := a in
@@ -143,7 +145,7 @@ Definition var2_terms (G : T) (pi pj wi wj ai aj bi bj : Part T) : T3 * T3 :=
   let dx := px pi - px pj in
   let dy := py pi - py pj in
   let dz := pz pi - pz pj in
-  let r2 := dx * dx + dy * dy + dz * dz in
+  let r2 := dx * dx + dy * dy + dz * dz + soft2 in
   let r := nsqrt N r2 in
   let r3inv := 1 / (r2 * r) in
   let r5inv := r3inv / r2 in
@@ -207,7 +209,7 @@ Definition newt_terms (G : T) (pi pj : Part T) : T3 * T3 :=
   let dx := px pi - px pj in
   let dy := py pi - py pj in
   let dz := pz pi - pz pj in
-  let _r := nsqrt N (dx * dx + dy * dy + dz * dz) in
+  let _r := nsqrt N (dx * dx + dy * dy + dz * dz + soft2) in
   let prefact := G / (_r * _r * _r) in
   let prefactj := (nneg N prefact) * pm pj in
   let prefacti := prefact * pm pi in
@@ -229,7 +231,7 @@ Definition var2_tp_step (G : T) (ps : list (Part T)) (w a b : T3) (i j : nat) (a
   let dx := px pi - px pj in
   let dy := py pi - py pj in
   let dz := pz pi - pz pj in
-  let r2 := dx * dx + dy * dy + dz * dz in
+  let r2 := dx * dx + dy * dy + dz * dz + soft2 in
   let r := nsqrt N r2 in
   let r3inv := 1 / (r2 * r) in
   let r5inv := r3inv / r2 in
